@@ -386,6 +386,13 @@ def _to_z3_bool(cond):
 
 class SymBool:
     """Symbolic truth value; bool() forks through the current path context."""
+    # immutable value object: copying (copy.copy / copy.deepcopy, e.g. a deep copy of an object array) yields the same scalar
+    def __copy__(self):
+        return self
+
+    def __deepcopy__(self, memo):
+        return self
+
 
     __slots__ = ("z",)
 
